@@ -5,6 +5,27 @@ from mir import op_place, op_str, place_fields
 import common as C
 
 
+def _proj_names(pr):
+    """projection elements as path names; the tuple field `.0` that holds the payload of a Result / Option / ControlFlow variant is not a step of its
+    own (`(r as Ok).0` is "the Ok payload", just as the Continue payload of `Try::branch(r)`)"""
+    out = []
+    prev_dc = False
+    for e in pr:
+        if isinstance(e, dict) and 'dc' in e:
+            out.append(e.get('dc'))
+            prev_dc = e.get('dc') in ('Ok', 'Err', 'Some', 'Continue', 'Break', 'Ready')
+            continue
+        if isinstance(e, dict) and 'f' in e:
+            if prev_dc and e.get('f') == 0:
+                prev_dc = False
+                continue
+            out.append(e.get('name'))
+        else:
+            out.append('*')
+        prev_dc = False
+    return tuple(out)
+
+
 class Srv:
     def __init__(self, crate):
         self.crate = crate
@@ -149,7 +170,7 @@ class Srv:
                     if rest and isinstance(rest[0], dict) and rest[0].get('f') == 0:
                         path = tuple(e.get('name') if isinstance(e, dict) and 'f' in e else '?' for e in rest[1:])
                 elif q['l'] in out:
-                    path = out[q['l']] + tuple((e.get('name') if isinstance(e, dict) and 'f' in e else (e.get('dc') if isinstance(e, dict) and 'dc' in e else '*')) for e in pr)
+                    path = out[q['l']] + _proj_names(pr)
                 if path is not None and out.get(dst) != path and dst not in out:
                     out[dst] = path
                     changed = True
@@ -176,7 +197,7 @@ class Srv:
                 q = op_place(s['rv']['op'])
                 if q and q['l'] in out and s['place']['l'] not in out:
                     pr = q.get('p') or []
-                    out[s['place']['l']] = out[q['l']] + tuple((e.get('name') if isinstance(e, dict) and 'f' in e else (e.get('dc') if isinstance(e, dict) and 'dc' in e else '*')) for e in pr)
+                    out[s['place']['l']] = out[q['l']] + _proj_names(pr)
                     changed = True
         return out
 
